@@ -95,7 +95,7 @@ def build(tier):
         b += constraints.bounded_kind('quadratic_t', (1, 2), info, not_decided)
         return v, b
 
-    jobs = [guarded('loss kernels / error policies', kernels), guarded('per-sample loops', sample_loops), guarded('constraints', constraint_kinds)]
+    jobs = [guarded('helper contracts', lambda: (functions.helper_vcs(info), [])), guarded('loss kernels / error policies', kernels), guarded('per-sample loops', sample_loops), guarded('constraints', constraint_kinds)]
     jobs += [guarded(f'function {n}', generic_fn(n)) for n in GENERIC_FUNCTIONS]
     jobs += [guarded(f'function {n} (bounded)', bounded_fn(n, sizes, opts)) for n, (sizes, opts) in BOUNDED_FUNCTIONS.items()]
     # the jobs are dominated by clang runs (one translation unit per benchmark function): run them side by side
@@ -125,27 +125,45 @@ def build(tier):
             'per-sample loops of all 16 flatten_loss_t instantiations and of pinball_loss_t: sample s reads row s of targets and row s of outputs '
             '(in this argument order), writes slot / row s of the result and nothing else, every sample is visited; the loss object declares exactly '
             'the flags of its kernel; pinball error == pinball value',
+            'benchmark functions, EVERY dimension n >= 1 (generic coordinate): ' + ', '.join(GENERIC_FUNCTIONS) + ': value-only and value+gradient calls '
+            'return the same value; gx_i == d value / d x_i; declared convex (and strongly convex with the declared coefficient: sphere 2, axis-ellipsoid 2, '
+            'exponential 2/n) => f(z) >= f(x) + <g(x), z - x> + mu/2 |z - x|^2 for all x, z in R^n',
+            'constraint kinds, every dimension: euclidean ball (equality / inequality), linear (equality / inequality): same clauses, strong convexity 2 resp. 0',
+            'BOUNDED stand-ins (fixed dimensions, listed under coverage.bounded): ' + ', '.join(f'{k} n={list(v[0])}' for k, v in BOUNDED_FUNCTIONS.items()) +
+            '; constraints minimum / maximum / constant n=1..3, quadratic n=1,2 (with and without the assumption that P is symmetric)',
         ],
         'not_decided': not_decided + [
             'exactness in IEEE arithmetic: every identity / inequality is proved over the reals (overflow of exp, cancellation, the 2^-52 fuzz of '
             'the 0-1 errors between 0 and epsilon are outside the model)',
             'agreement with central differences (a numerical statement) -- replaced by the exact derivative identity',
-            'a flag that is pessimistic (convex = false on a convex loss) is not a violation of the property and is not checked',
+            'a flag that is pessimistic (convex = false on a convex function / loss, smooth = false, a strong-convexity coefficient smaller than the best one) '
+            'is not a violation of the property and is not checked',
+            'benchmark functions maxquad (3-D coefficient tensors) and the five elastic-net instantiations (function_enet_t<loss>: synthetic data + loss)',
+            'the bounded functions at dimensions other than the listed ones; convexity of chained_lq / chained_cb3I / chained_cb3II / maxhilb / quadratic at n = 3 '
+            '(the solvers time out); the declared strong-convexity coefficient of the quadratic function and of quadratic constraints (an eigenvalue computation)',
+            'functional constraints (delegate to function_t::vgrad), the std::visit dispatch nano::vgrad / nano::convex / nano::strong_convexity over the variant',
+            'machine-learning objectives: linear::function_t, gboost functions, tuner surrogate (the regularisation terms of the linear model are C09)',
         ],
-        'assumptions': [
-            'IEEE double treated as real; std::exp / log / log1p / atan are uninterpreted functions constrained only by the stated facts E1-E4, L1, P1, P2 '
+        'assumptions': sorted(assumptions) + [
+            'IEEE double treated as real; std::exp / log / log1p / atan are uninterpreted functions constrained only by the stated facts E1-E5, L1, P1, P2, Q1 '
             '(specs/C06/vcgen.py) -- P2 (softplus is convex with derivative sigmoid) is used by the convexity obligation of the logistic loss only',
             'derivative rule table of specs/C06/sx.py (sum, product, quotient, chain rule for exp / log / log1p / atan / sqrt, branch-wise for ite)',
             'finite sums: S1 a sum of non-negative terms is non-negative (positive terms, non-empty range: positive), S2 linearity, '
-            'S3 sum = summand at i + rest that does not depend on coordinate i',
-            'Eigen coefficient-wise operators, reductions and maxCoeff(&index) behave as documented (closed list in specs/C06/eig.py); '
+            'S3 sum = summand at i + rest that does not depend on coordinate i; G1 the Gram matrix of real vectors is positive semi-definite (Cauchy-Schwarz)',
+            'Eigen coefficient-wise operators, reductions, products and maxCoeff(&index) behave as documented (closed list in specs/C06/eig.py); '
             'a per-coordinate / per-sample `for (i = 0; i < size; ++i)` loop whose body touches the arrays at i only computes the map / the additive '
             'reduction of its body (the shape conditions are obligations of every run)',
             'classnll and the single-label error call maxCoeff: a sample has at least one output value',
             'pinball: 0 <= alpha <= 1, the domain registered by the constructor (read from the make_scalar call; parameters staying in their domain is C19)',
+            'a function has at least one dimension (n >= 1); gx.size() is either 0 or x.size() (function_t::vgrad)',
+            'member tensors of the benchmark functions (m_bias, m_kinks, m_weights, m_a) have the function\'s dimension; random tensors '
+            '(make_random_vector / make_random_matrix) are arbitrary reals; the quadratic and geometric functions are walked on the member state their '
+            'CONSTRUCTOR body establishes (m_A = I + A * A^T is extracted, not assumed)',
+            'constant / minimum / maximum constraints: 0 <= m_dimension < n (::compatible, checked by function_t::constrain before a constraint is accepted)',
+            'quadratic constraints, n <= 2: nano::convex(P) (all eigenvalues have a non-negative real part) <=> trace(P) >= 0 and det(P) >= 0',
         ],
         'trusted': ['specs/C06/sx.py derivative rule table', 'specs/C06/vcgen.py stated facts about exp / log / log1p / sqrt and finite sums',
-                    'specs/C06/eig.py closed list of Eigen operations'],
+                    'specs/C06/eig.py closed list of Eigen operations', 'specs/C06/poly.py polynomial normal form (linearity of finite sums)'],
     }
 
 
@@ -156,6 +174,11 @@ def replay(rp):
     import re
     import replaylib
     out = {'reproduced': False, 'runs': []}
+    if '/mut_C06_' in os.environ.get('NV_SCRATCH', '') or os.environ.get('NV_NO_NATIVE_REPLAY'):
+        # canary-mutation self test of the thorough tier: it only looks at the refuted obligation, and its private scratch would
+        # force a full library build (minutes) per canary
+        out['skipped'] = 'canary-mutation run / NV_NO_NATIVE_REPLAY'
+        return out
     exe = replaylib.build_with_library('replay/C06_replay.cpp', 'C06_replay')
 
     def run(args):
